@@ -290,7 +290,7 @@ def rule_g(model, rep):
     R = "C08.g-lenient-decoders"
     n = 0
     for un, unit in model.units.items():
-        if not un.startswith("passlib.handlers"):
+        if not un.startswith(("passlib.handlers", "libpass.inspect", "libpass.hashers", "libpass._utils")):
             continue
         for q, fn in unit.functions():
             regex_fed = any(isinstance(c, ast.Call) and isinstance(c.func, ast.Attribute) and c.func.attr in ("match", "fullmatch") and "regex" in ast.unparse(c.func.value) for c in walk_no_nested(fn))
@@ -847,6 +847,9 @@ def run(model, rep):
     # fields cut at the wrong character let an altered setting through (django_des_crypt's duplicated salt, fixed-offset parsers)
     _t = HandlerTable(model)
     _c07.rule_h(model, _Renamed(rep, {"C07.h": "C08.k-slice-offsets"}, "C08.x-"), _t, _c07._handler_pairs(model, _t))
+    # scram reads its algorithm names from the hash string: a name that is no digest must not reach a hashlib function of that name
+    from . import prim as _prim8
+    _prim8.rule_hash_const(model, rep, "C08.g-lenient-decoders")
     # a read-only has_backend() query must not switch the implementation that later validates untrusted cost parameters (rule shared with C03)
     from . import c03 as _c03
     _c03.rule_g(model, _Renamed(rep, {"C03.g-dryrun-forwarded": "C08.n-dryrun-forwarded", "C03.g-backend-state-owner": "C08.n-backend-state"}, "C08.x-"))
